@@ -51,6 +51,8 @@ def _job(a):
             bound = iters >= 4
         else:
             rc, so, se = sh([unc, "-c", cfgpath, "-q", "-l", lang, "-f", src], cwd=tmp, timeout=20)
+            if rc == -999:      # slow or stuck: six times the budget decides
+                rc, so, se = sh([unc, "-c", cfgpath, "-q", "-l", lang, "-f", src], cwd=tmp, timeout=120)
         os.unlink(src)
         rcs.append(rc)
         if rc != 0:
